@@ -9,7 +9,11 @@ package fileutil
 //@ func FileMD5 trusted
 //@   modifies nothing
 
-//@ func Copy trusted
+// Copy: what arrives at dst is exactly the content of src - the destination is created empty or
+// truncated (never opened for writing over, or appending to, what an earlier attempt left there)
+//@ func Copy
+//@   before call io.Copy assert copies-source-into-emptied-destination: called(os.Open) && lastarg(os.Open, 0) == src && lastret(os.Open, 1) == nil && arg1 == lastret(os.Open, 0) && ((called(os.Create) && lastarg(os.Create, 0) == dst && lastret(os.Create, 1) == nil && arg0 == lastret(os.Create, 0)) || (called(os.OpenFile) && lastarg(os.OpenFile, 0) == dst && lastret(os.OpenFile, 1) == nil && arg0 == lastret(os.OpenFile, 0) && lastarg(os.OpenFile, 1) & os.O_TRUNC != 0 && lastarg(os.OpenFile, 1) & os.O_APPEND == 0))
+//@   on return assert success-means-copied: r0 == nil ==> called(io.Copy) && lastret(io.Copy, 1) == nil && ncalls(io.Copy) == 1
 //@   modifies nothing
 
 // ---------------------------------------------------------------- write-ahead discipline (C06 C07)
